@@ -17,6 +17,7 @@ MUTANTS = [
     {"id": "revert/26b0c2d-ex-default-pair", "kind": "break", "revert": "26b0c2d", "props": ["C09"]},
     {"id": "revert/e31b81b-cache-key", "kind": "break", "revert": "e31b81b", "props": ["C10"]},
     {"id": "revert/35c0eeb-org-symbol", "kind": "break", "revert": "35c0eeb", "props": ["C10"]},
+    {"id": "revert/bd5a0ce-mvl-signed-count", "kind": "break", "revert": "bd5a0ce", "props": ["C04", "C03"]},
 
     # --- behaviour-preserving edits: every check must stay silent ---------------------------------------------------
     {"id": "neutral/ruff-format-width-140", "kind": "neutral", "props": ALL,
